@@ -54,7 +54,8 @@ for _reach in ("ctor", "moved-column", "assign-list", "ctor-twin-table"):
             CELLS.append(f"mixed/{_reach}/{_side}/{_inl}")
 for _reach in ("ctor", "assign"):
     CELLS.append(f"composite-inline/{_reach}")
-for _reach in ("table-never-added", "table-deleted", "column-of-detached-table", "column-without-table"):
+for _reach in ("table-never-added", "table-deleted", "table-deleted-by-equal-twin", "column-of-detached-table",
+               "column-without-table"):
     CELLS.append(f"detached-lookup/{_reach}")
 
 
@@ -486,6 +487,42 @@ class C17Engine(C10.C10Engine):
                     self.expect_raises(cell, "column.get_refs", lambda: real[m[t]["cols"][0]].get_refs(), UDE, ctx)
                 finally:
                     rdb.add(real[t])            # heal: re-added at the end
+                    d["tables"].remove(t)
+                    d["tables"].append(t)
+            elif reach == "table-deleted-by-equal-twin":
+                # the table is deleted through an equal but not identical Table object
+                cand_t = [x for x in tables if not m[x]["idxs"]]
+                if not cand_t:
+                    raise Skip
+                t = g.choice(cand_t)
+                td = m[t]
+                cols = []
+                for c in td["cols"]:
+                    cd = m[c]
+                    ty = cd["type"]
+                    dv = cd["default"]
+                    cols.append(C.Column(cd["name"], real[ty[1]] if isinstance(ty, list) else ty, unique=cd["unique"],
+                                         not_null=cd["not_null"], pk=cd["pk"], autoinc=cd["autoinc"],
+                                         default=C.Expression(dv[1]) if isinstance(dv, list) else dv,
+                                         note=cd["note"] or None, comment=cd["comment"],
+                                         properties=dict(cd["properties"]) or None))
+                twin = C.Table(td["name"], schema=td["schema"], alias=td["alias"], columns=cols,
+                               header_color=td["header_color"], comment=td["comment"], abstract=td["abstract"],
+                               note=td["note"] or None, properties=dict(td["properties"]) or None)
+                before = list(rdb.tables)
+                try:
+                    rdb.delete(twin)
+                except Exception:
+                    raise Skip   # an equal twin is treated as absent by this implementation
+                gone = [x for x in before if not any(x is y for y in rdb.tables)]
+                if len(gone) != 1 or gone[0] is not real[t]:
+                    raise Skip
+                try:
+                    self.expect_raises(cell, "table.get_refs", lambda: real[t].get_refs(), UDE, ctx)
+                    self.expect_raises(cell, "column.get_refs", lambda: real[m[t]["cols"][0]].get_refs(), UDE, ctx)
+                finally:
+                    real[t].database = None
+                    rdb.add(real[t])
                     d["tables"].remove(t)
                     d["tables"].append(t)
             elif reach == "column-of-detached-table":
